@@ -68,6 +68,8 @@ def is_zero(Y):
 def check_tt(ctx, Z, shape, what):
     why = oracle.wellformed(Z, shape)
     ctx.check(why is None, f"{what}: result is not a well-formed finite TT-tensor of the expected shape: {why}")
+    if max(oracle.ranks_of(Z)) > 12:
+        return          # Gram-based quantities of a rank-r tensor cost r^4 per core: products of summed tensors only get the structural check
     for name, fn in (("norm", teneva.norm), ("sum", teneva.sum), ("mean", teneva.mean), ("erank", teneva.erank)):
         v = ctx.lib(fn, Z)
         ctx.check(np.isfinite(v), f"{what}: {name} of the result is not finite", value=float(v))
@@ -252,4 +254,4 @@ def prop(case, ctx):
         check_tt(ctx, Z, [nn] * d, f"anova_func on {case['data']} data")
 
 
-SUBCHECKS = [Sub("degenerate", prop, strategy=cases, quick=250, thorough=5000)]
+SUBCHECKS = [Sub("degenerate", prop, strategy=cases, quick=800, thorough=8000)]
